@@ -82,6 +82,14 @@ def build_file(name, fps, arrangement, fill, regime, final_nl, bom=False, blank_
                 post = "" if fp.anchor_r else F[1]
                 lines.append(([("t", pre)] if pre else []) + [("o", fp)] + ([("t", post)] if post else []))
             lines.append([("t", F[2])])
+    elif arrangement == "twice-on-a-line":
+        # the same pattern two and three times on one line
+        for fp in fps:
+            if fp.anchor_l or fp.anchor_r:
+                continue
+            lines.append([("t", "either "), ("o", fp), ("t", " or "), ("o", fp), ("t", F[1])])
+            lines.append([("o", fp), ("t", ", "), ("o", fp), ("t", ", "), ("o", fp)])
+        lines.append([("t", F[2])])
     elif arrangement == "glued":
         # occurrences directly preceded by a letter or an underscore (v1.2.3, demo_1.2.3), next to a normally delimited one
         for fp in fps:
